@@ -265,6 +265,12 @@ fn c01(tier: &str, thorough: bool) -> i32 {
         add_enum(&ctx, &mut tot, "four one-mini-sector streams, live", &mini_live_cfg(v, if thorough { 5 } else { 4 }, o));
         add_enum(&ctx, &mut tot, "31-unit names", &EnumCfg { version: v, seed: "fresh".into(), ops: long_name_ops(), depth: 3, oracles: o, extra_paths: vec![], one_reopen: false, extend_refused: false });
     }
+    // large files (V3): results and content across the first and the second DIFAT sector, live and reopened
+    for seed in ["b7100000", "b15300000"] {
+        let ops = vec![Op::Rewrite("/n1".into(), 64), Op::Rewrite("/n1".into(), 100_000), Op::Rewrite("/n2".into(), 100_000), Op::RemoveStream("/n1".into())];
+        let ob = Oracles { model: true, probes: false, refusal: false, spec: false, reopen: true };
+        add_enum(&ctx, &mut tot, "large file", &EnumCfg { version: 3, seed: seed.into(), ops, depth: 2, oracles: ob, extra_paths: vec![], one_reopen: false, extend_refused: false });
+    }
     ctx.finish(tot.0, tot.1)
 }
 
@@ -438,6 +444,15 @@ fn c08(tier: &str, thorough: bool) -> i32 {
     ctx.note(format!("one handle, resize alphabet (15 calls): configs={} sequences={} calls={}", st.configs, st.sequences, st.calls));
     tot.0 += st.sequences;
     tot.1 += st.calls;
+    // "regardless of earlier history": a resize that failed part-way because a write to the underlying
+    // file failed, after which the caller (without retrying) grows the stream
+    for v in [3u16, 4] {
+        let (runs, positions) = crate::e4::explore_resize_faults(&ctx, v, thorough);
+        ctx.note(format!("v{} failed resize, then growth: runs={} fault positions={}", v, runs, positions));
+        ctx.add("resize_fault_positions", positions);
+        tot.0 += runs;
+        tot.1 += runs;
+    }
     ctx.finish(tot.0, tot.1)
 }
 
@@ -484,6 +499,10 @@ fn c10(tier: &str, thorough: bool) -> i32 {
         ops.push(Op::CreateStorage("/s".into()));
         ops.push(Op::CreateNewStream("/s".into()));
         ops.push(Op::RemoveStorage("/s".into()));
+        // creation below a stream, under two spellings of the parent (refused, and refused again)
+        ops.push(Op::CreateStream("/s/x".into()));
+        ops.push(Op::CreateStorage("/s/y".into()));
+        ops.push(Op::CreateNewStream("/s/../s/./z".into()));
         ops.push(Op::CreateStream("/s/x".into()));
         add_enum(&ctx, &mut tot, "data + refused extended", &EnumCfg { version: v, seed: "fresh".into(), ops, depth: 3, oracles: o, extra_paths: vec![], one_reopen: false, extend_refused: true });
     }
@@ -625,7 +644,7 @@ fn c12(tier: &str, thorough: bool) -> i32 {
             }
         };
         for (name, max_buf, steps) in crate::e4::readonly_workloads() {
-            let case = crate::e4::FaultCase { generated: false, with_interrupted: true, workload: name.clone(), version: v, max_buf, steps, plan: vec![], kinds: vec![CallKind::Read, CallKind::Seek], read_only: true };
+            let case = crate::e4::FaultCase { no_retry: false, generated: false, with_interrupted: true, workload: name.clone(), version: v, max_buf, steps, plan: vec![], kinds: vec![CallKind::Read, CallKind::Seek], read_only: true };
             // pairs: both faults in the stream-read phase always; including the open phase for V3 in thorough
             let pairs = if thorough && v == 3 { crate::e4::Pairs::All } else { crate::e4::Pairs::AfterFirstStep };
             let st = crate::e4::explore(ctx, &case, Some(&base), &[CallKind::Read, CallKind::Seek], pairs);
@@ -646,7 +665,7 @@ fn c12(tier: &str, thorough: bool) -> i32 {
             }
         };
         for (name, max_buf, steps) in crate::e4::readonly_workloads_large() {
-            let case = crate::e4::FaultCase { generated: false, with_interrupted: true, workload: name.clone(), version: v, max_buf, steps, plan: vec![], kinds: vec![CallKind::Read, CallKind::Seek], read_only: true };
+            let case = crate::e4::FaultCase { no_retry: false, generated: false, with_interrupted: true, workload: name.clone(), version: v, max_buf, steps, plan: vec![], kinds: vec![CallKind::Read, CallKind::Seek], read_only: true };
             let st = crate::e4::explore(ctx, &case, Some(&base), &[CallKind::Read, CallKind::Seek], crate::e4::Pairs::None);
             ctx.note(format!("v{} {}: fault positions={} runs={} underlying calls executed={} faults delivered={}", v, name, st.positions, st.runs, st.calls, st.faults_delivered));
             runs += st.runs;
@@ -668,7 +687,7 @@ fn c12(tier: &str, thorough: bool) -> i32 {
             let stats: Vec<crate::e4::FaultStats> = gen
                 .par_iter()
                 .map(|(name, max_buf, steps, prefix_len)| {
-                    let case = crate::e4::FaultCase { generated: true, with_interrupted: true, workload: name.clone(), version: v, max_buf: *max_buf, steps: steps.clone(), plan: vec![], kinds: vec![CallKind::Read, CallKind::Seek], read_only: true };
+                    let case = crate::e4::FaultCase { no_retry: false, generated: true, with_interrupted: true, workload: name.clone(), version: v, max_buf: *max_buf, steps: steps.clone(), plan: vec![], kinds: vec![CallKind::Read, CallKind::Seek], read_only: true };
                     crate::e4::explore_from(ctx, &case, Some(&base), &[CallKind::Read, CallKind::Seek], crate::e4::Pairs::None, *prefix_len)
                 })
                 .collect();
@@ -703,7 +722,7 @@ fn c13(tier: &str, thorough: bool) -> i32 {
     let mut calls = 0u64;
     for v in [3u16, 4] {
         for (name, max_buf, steps) in crate::e4::mutating_workloads() {
-            let case = crate::e4::FaultCase { generated: false, with_interrupted: false, workload: name.clone(), version: v, max_buf, steps, plan: vec![], kinds: vec![CallKind::Write, CallKind::Seek, CallKind::Flush], read_only: false };
+            let case = crate::e4::FaultCase { no_retry: false, generated: false, with_interrupted: false, workload: name.clone(), version: v, max_buf, steps, plan: vec![], kinds: vec![CallKind::Write, CallKind::Seek, CallKind::Flush], read_only: false };
             let st = crate::e4::explore(ctx, &case, None, &[CallKind::Write, CallKind::Seek, CallKind::Flush], if thorough { crate::e4::Pairs::Near(if v == 3 { 300 } else { 60 }) } else { crate::e4::Pairs::None });
             ctx.note(format!("v{} {}: fault positions={} runs={} underlying calls executed={} faults delivered={}", v, name, st.positions, st.runs, st.calls, st.faults_delivered));
             runs += st.runs;
@@ -712,16 +731,29 @@ fn c13(tier: &str, thorough: bool) -> i32 {
             ctx.add("faults_delivered", st.faults_delivered);
         }
     }
+    // large V3 files: the write-backs that add the first / the second DIFAT sector
+    for (name, max_buf, steps, prefix_len) in crate::e4::large_mutating_workloads() {
+        if !thorough && name.contains("second") {
+            continue;
+        }
+        let case = crate::e4::FaultCase { no_retry: false, generated: false, with_interrupted: false, workload: name.clone(), version: 3, max_buf, steps, plan: vec![], kinds: vec![CallKind::Write, CallKind::Seek, CallKind::Flush], read_only: false };
+        let st = crate::e4::explore_from(ctx, &case, None, &[CallKind::Write, CallKind::Seek, CallKind::Flush], crate::e4::Pairs::None, prefix_len);
+        ctx.note(format!("v3 {}: fault positions={} runs={} underlying calls executed={} faults delivered={}", name, st.positions, st.runs, st.calls, st.faults_delivered));
+        runs += st.runs;
+        calls += st.calls;
+        ctx.add("fault_positions", st.positions);
+        ctx.add("faults_delivered", st.faults_delivered);
+    }
     // generated workloads: every step sequence of the depth from three starting states, single faults
     {
         use rayon::prelude::*;
         let depth = if thorough { 3 } else { 2 };
         let gen = crate::e4::generated_mutating_workloads(depth);
-        for v in [3u16, 4] {
+        for (v, no_retry) in [(3u16, false), (4, false), (3, true), (4, true)] {
             let stats: Vec<crate::e4::FaultStats> = gen
                 .par_iter()
                 .map(|(name, max_buf, steps, prefix_len)| {
-                    let case = crate::e4::FaultCase { generated: true, with_interrupted: false, workload: name.clone(), version: v, max_buf: *max_buf, steps: steps.clone(), plan: vec![], kinds: vec![CallKind::Write, CallKind::Seek, CallKind::Flush], read_only: false };
+                    let case = crate::e4::FaultCase { no_retry, generated: true, with_interrupted: false, workload: name.clone(), version: v, max_buf: *max_buf, steps: steps.clone(), plan: vec![], kinds: vec![CallKind::Write, CallKind::Seek, CallKind::Flush], read_only: false };
                     // faults in the calls of the generated steps (and of the closing flushes), not of the common prefix
                     crate::e4::explore_from(ctx, &case, None, &[CallKind::Write, CallKind::Seek, CallKind::Flush], crate::e4::Pairs::None, *prefix_len)
                 })
@@ -733,7 +765,7 @@ fn c13(tier: &str, thorough: bool) -> i32 {
                 p += st.positions;
                 d += st.faults_delivered;
             }
-            ctx.note(format!("v{} generated workloads (4 starting states x every sequence of {} steps over 14 step kinds): workloads={} fault positions={} runs={} underlying calls executed={} faults delivered={}", v, depth, gen.len(), p, r, c, d));
+            ctx.note(format!("v{} generated workloads (4 starting states x every sequence of {} steps over 14 step kinds), failed calls {}: workloads={} fault positions={} runs={} underlying calls executed={} faults delivered={}", v, depth, if no_retry { "not retried" } else { "retried" }, gen.len(), p, r, c, d));
             runs += r;
             calls += c;
             ctx.add("fault_positions", p);
@@ -943,6 +975,12 @@ fn c09(tier: &str, thorough: bool) -> i32 {
                 let few: Vec<String> = ["a", "B", "\u{e9}", "\u{1f600}", "\u{e000}a", "\u{3a9}", "ab", "\u{ff21}"].iter().map(|s| s.to_string()).collect();
                 add(crate::e1n::coexistence(ctx, v, &few, 4), &format!("v{} coexistence k=4 over {} names", v, few.len()), ctx);
             }
+            // characters whose FULL upper-casing is several characters (sharp s, ligatures, n-apostrophe,
+            // j-caron, iota with dialytika and tonos) next to those expansions: MS-CFB folds unit by unit,
+            // so "stra\u{df}e" and "STRASSE" are different names of different lengths and must coexist -
+            // also after reopening
+            let exp: Vec<String> = ["\u{df}", "SS", "stra\u{df}e", "STRASSE", "\u{fb01}", "FI", "\u{149}", "\u{2bc}N", "\u{1f0}", "J\u{30c}", "\u{390}", "\u{399}\u{308}\u{301}", "ma\u{df}e", "MASSE"].iter().map(|s| s.to_string()).collect();
+            add(crate::e1n::coexistence(ctx, v, &exp, 2), &format!("v{} coexistence k=2 over {} names with multi-character upper-casing", v, exp.len()), ctx);
             // every insertion order of five names, then every removal order (sibling trees of depth up to 5)
             let five: Vec<String> = ["n2", "N3", "n4", "\u{e9}5", "n7"].iter().map(|s| s.to_string()).collect();
             add(crate::e1n::coexistence(ctx, v, &five, 5), &format!("v{} coexistence k=5 over {} names", v, five.len()), ctx);
@@ -1347,6 +1385,26 @@ pub fn replay(path: &str) -> i32 {
                     println!("VIOLATION-REPLAYED class={} {}", class, msg);
                 }
                 1
+            }
+        }
+        "resize_fault" => {
+            let c: crate::e4::ResizeFaultCase = match serde_json::from_value(case["resize_fault"].clone()) {
+                Ok(c) => c,
+                Err(e) => {
+                    eprintln!("bad resize-fault case: {}", e);
+                    return 2;
+                }
+            };
+            println!("replaying {:?}", c);
+            match crate::e4::run_resize_fault_case(&c).1 {
+                None => {
+                    println!("no violation on replay");
+                    0
+                }
+                Some((class, msg)) => {
+                    println!("VIOLATION-REPLAYED class={} {}", class, msg);
+                    1
+                }
             }
         }
         "handles" => {
